@@ -42,6 +42,13 @@ MStep(m, e, idx) ==
             want == IF e.j = 1 THEN 1 ELSE IF share THEN 1 ELSE 2
         IN [m EXCEPT !.bad = IF e.inv # want
                                THEN Flag(@, "C14", IF share THEN "C14_Shares" ELSE "C14_NeverCross", idx) ELSE @]
+    [] e.e = "CallEnd" /\ m.mode = "twofuncs" ->
+        \* one configured decorator applied to two functions f, g: calls f, g, f, g with equal arguments;
+        \* each function has its own cache: call 3 gets call 1's value, call 4 gets call 2's
+        LET want == IF e.j <= 2 THEN e.j ELSE e.j - 2
+        IN [m EXCEPT !.bad = IF e.inv # want THEN Flag(@, "C14", "C14_PerFunctionCache", idx) ELSE @]
+    [] e.e = "PairEnd" /\ m.mode = "twofuncs" ->
+        [m EXCEPT !.bad = IF m.started # {1, 2} THEN Flag(@, "C14", "C14_PerFunctionCache", idx) ELSE @]
     [] e.e = "PairEnd" ->
         LET share == SigEq(m.s1, m.s2)
             want == IF share THEN {1} ELSE {1, 2}
